@@ -508,6 +508,13 @@ _INT_BIN = {
 def intop(op, a, b):
     if op == "irem" and is_lit(b) and isinstance(b.args[0], int) and b.args[0] > 0 and b.args[0] & (b.args[0] - 1) == 0 and not is_lit(a):
         return intop("band", a, lit(b.args[0] - 1))      # x % 2^k == x & (2^k - 1) for the unsigned integers used here
+    def _is_int(t_, v_):
+        return is_lit(t_) and t_.args[0] == v_ and not isinstance(t_.args[0], bool)
+    # neutral elements
+    if op in ("shr", "shl", "iadd", "isub", "bor", "bxor") and _is_int(b, 0):
+        return a
+    if op in ("iadd", "bor", "bxor") and _is_int(a, 0):
+        return b
     if op == "imul":
         if is_lit(b) and b.args[0] == 1 and not isinstance(b.args[0], bool):
             return a
